@@ -12,6 +12,7 @@ import (
 	"strings"
 	"sync"
 	"sync/atomic"
+	"syscall"
 	"time"
 
 	"mvdan.cc/sh/v3/syntax"
@@ -102,6 +103,21 @@ func c26Bash(src, dir string, to time.Duration) (c26Res, error) {
 	return r, err
 }
 
+// c26OwnGroup makes bash the leader of a new process group, and the timeout
+// kill the whole group: a generated program may fork subshells or background
+// jobs that loop, and killing only bash itself left them spinning for hours.
+func c26OwnGroup(cmd *exec.Cmd) {
+	cmd.SysProcAttr = &syscall.SysProcAttr{Setpgid: true}
+	cmd.Cancel = func() error { return syscall.Kill(-cmd.Process.Pid, syscall.SIGKILL) }
+}
+
+// c26KillGroup removes whatever the finished bash left behind in its group.
+func c26KillGroup(cmd *exec.Cmd) {
+	if cmd.Process != nil {
+		syscall.Kill(-cmd.Process.Pid, syscall.SIGKILL)
+	}
+}
+
 func c26BashRun(src, dir string, to time.Duration) (c26Res, error) {
 	f, err := os.CreateTemp("", "c26-*.sh")
 	if err != nil {
@@ -118,7 +134,9 @@ func c26BashRun(src, dir string, to time.Duration) (c26Res, error) {
 	var out bytes.Buffer
 	cmd.Stdout = &out
 	cmd.WaitDelay = time.Second
+	c26OwnGroup(cmd)
 	err = cmd.Run()
+	c26KillGroup(cmd)
 	if ctx.Err() != nil {
 		return c26Res{Timeout: true}, nil
 	}
@@ -185,7 +203,9 @@ func c26BashBatchRun(srcs []string, dirs []string, to time.Duration) (res []c26R
 	var out bytes.Buffer
 	cmd.Stdout = &out
 	cmd.WaitDelay = time.Second
+	c26OwnGroup(cmd)
 	cmd.Run()
+	c26KillGroup(cmd)
 	if ctx.Err() != nil {
 		return nil, false
 	}
@@ -207,7 +227,9 @@ func c26BashBatchRun(srcs []string, dirs []string, to time.Duration) (res []c26R
 	return res, true
 }
 
-func c26NeedsDir(src string) bool { return strings.ContainsAny(src, "<>") || strings.Contains(src, "cd ") }
+func c26NeedsDir(src string) bool {
+	return strings.ContainsAny(src, "<>") || strings.Contains(src, "cd ")
+}
 
 var c26DirSeq atomic.Int64
 
@@ -409,9 +431,9 @@ func c26(c *vc.Ctx) {
 				return oracle.RunInterpFile(f, oracle.InterpOpts{Dir: d, Env: c26Env, NoExec: true, Timeout: 10 * time.Second})
 			})
 			fails[i] = &vc.Fail{
-				Key:   fmt.Sprintf("%q interp=%d:%q", t.Src, ir.Status, ir.Stdout),
-				Msg:   fmt.Sprintf("[%s] %q: bash stdout %q status %d, interp stdout %q status %d", t.Desc, t.Src, br.Out, br.Status, ir.Stdout, ir.Status),
-				Class: class,
+				Key:    fmt.Sprintf("%q interp=%d:%q", t.Src, ir.Status, ir.Stdout),
+				Msg:    fmt.Sprintf("[%s] %q: bash stdout %q status %d, interp stdout %q status %d", t.Desc, t.Src, br.Out, br.Status, ir.Stdout, ir.Status),
+				Class:  class,
 				Detail: map[string]any{"bash_stdout": br.Out, "bash_status": br.Status, "interp_stdout": ir.Stdout, "interp_status": ir.Status, "interp_stderr": ir.Stderr, "interp_fatal": ir.Fatal},
 			}
 		}
